@@ -215,6 +215,47 @@ func c09Trial(seed uint64, vals []uint64) *c09TrialOut {
 			out.Harness = "race report with harness frames only: " + h[0]
 		}
 	}
+	// the same interleaving once more in the build without the race detector, on one P: there sync.Pool
+	// really pools (the -race build drops every Put, so state shared through a pool never comes back
+	// there), and what a worker gets out of a pool is what another put in
+	var pooled c09Res
+	{
+		pp := filepath.Join(tmp, "pooled.json")
+		pargs := append([]string{}, args...)
+		pargs[2] = pp
+		pc := exec.Command(instBin(), pargs...)
+		pc.Env = append(os.Environ(), "GFSIM_C09_FULL=1", "GOMAXPROCS=1", "GOGC=off", "VERIF_REPO="+repoDir())
+		var pse bytes.Buffer
+		pc.Stderr = &pse
+		pdone := make(chan error, 1)
+		go func() { pdone <- pc.Run() }()
+		var perr error
+		select {
+		case perr = <-pdone:
+		case <-time.After(120 * time.Second):
+			pc.Process.Kill()
+			out.Harness = "pooled trial did not finish within 120s (killed)"
+			return out
+		}
+		if b, err := os.ReadFile(pp); err == nil {
+			json.Unmarshal(b, &pooled)
+		}
+		if perr != nil {
+			se := pse.String()
+			code := -1
+			if ee, ok := perr.(*exec.ExitError); ok {
+				code = ee.ExitCode()
+			}
+			if i := strings.Index(se, "panic: "); i >= 0 && code != 4 {
+				out.Findings = append(out.Findings, c09Finding{FP: "C09.crash-concurrent/" + fatalSite(se), Msg: "sessions running concurrently (build without the race detector, sync.Pool pooling) crash the process: " + clipS(se[i:], 4000)})
+			} else if i := strings.Index(se, "fatal error: "); i >= 0 && code != 4 {
+				out.Findings = append(out.Findings, c09Finding{FP: "C09.fatal/" + fatalSite(se), Msg: "the Go runtime aborted the process: " + clipS(se[i:], 4000)})
+			} else {
+				out.Harness = fmt.Sprintf("pooled trial process failed (exit %d): %s", code, clipS(se, 1500))
+				return out
+			}
+		}
+	}
 	// each worker alone, in its own fresh process
 	if len(out.Findings) == 0 || true {
 		for k := 0; k < out.Res.Workers && k < len(out.Res.Digests); k++ {
@@ -255,6 +296,27 @@ func c09Trial(seed uint64, vals []uint64) *c09TrialOut {
 			if label != "" {
 				out.Findings = append(out.Findings, c09Finding{FP: "C09.interference/" + world.LabelClass(label),
 					Msg: fmt.Sprintf("worker %d produced different outputs running concurrently with %d other workers than running the same script alone (concurrent vs solo, modulo UUIDs and timestamps), first at %s: %s", k, out.Res.Workers-1, label, detail)})
+			}
+			if label == "" && k < len(pooled.Outputs) {
+				p := normalise(pooled.Outputs[k])
+				for i := 0; i < len(p) || i < len(s); i++ {
+					var x, y string
+					if i < len(p) {
+						x = p[i]
+					}
+					if i < len(s) {
+						y = s[i]
+					}
+					if x != y {
+						label = strings.SplitN(x+"=", "=", 2)[0]
+						if label == "" {
+							label = strings.SplitN(y+"=", "=", 2)[0]
+						}
+						out.Findings = append(out.Findings, c09Finding{FP: "C09.interference-pooled/" + world.LabelClass(label),
+							Msg: fmt.Sprintf("worker %d produced different outputs running concurrently with %d other workers (build without the race detector, where sync.Pool pools) than running the same script alone, first at %s: %s", k, out.Res.Workers-1, label, firstDiffS(x, y))})
+						break
+					}
+				}
 			}
 		}
 	}
